@@ -5,6 +5,9 @@ CONSTANTS
   Drops = {0}
   Sizes = {1}
   MaxLen = 8
+  SeqOpts = {TRUE}
+  TsOpts = {TRUE}
+  Rebinds = FALSE
   Impl = "trunc"
 INIT Init
 NEXT Next
